@@ -121,6 +121,7 @@ haserr:
 	}
 hasperr:
 	// Persistent error.
+	atomic.StoreInt32(&db.compPerErrSet, 1)
 	for {
 		select {
 		case db.compErrC <- err:
@@ -614,7 +615,25 @@ func (db *DB) tableCompaction(c *compaction, noTrivial bool) {
 	}
 }
 
+// persistentErr returns the persistent error (read-only mode, corruption) the
+// DB is in, if it is in one.
+func (db *DB) persistentErr() error {
+	if atomic.LoadInt32(&db.compPerErrSet) == 0 {
+		return nil
+	}
+	select {
+	case err := <-db.compPerErrC:
+		return err
+	case <-db.closeC:
+		return ErrClosed
+	}
+}
+
 func (db *DB) tableRangeCompaction(level int, umin, umax []byte) error {
+	// A DB in its persistent error state starts no new table compaction.
+	if err := db.persistentErr(); err != nil {
+		return err
+	}
 	db.logf("table@compaction range L%d %q:%q", level, umin, umax)
 	if level >= 0 {
 		if c := db.s.getCompactionRange(level, umin, umax, true); c != nil {
@@ -653,12 +672,20 @@ func (db *DB) tableRangeCompaction(level int, umin, umax []byte) error {
 }
 
 func (db *DB) tableAutoCompaction() {
+	if db.persistentErr() != nil {
+		return
+	}
 	if c := db.s.pickCompaction(); c != nil {
 		db.tableCompaction(c, false)
 	}
 }
 
 func (db *DB) tableNeedCompaction() bool {
+	// (None is due in the persistent error state: reads of a DB switched to
+	// read-only must not set off seek compactions.)
+	if db.persistentErr() != nil {
+		return false
+	}
 	v := db.s.version()
 	defer v.release()
 	return v.needCompaction()
